@@ -1,6 +1,6 @@
 /-
 The specification of C05 (ignored fields) and C10 (update methods) as a RELATION, written from the property statements:
-`ImgOnto env s t v old w` says that `w` is what assigning the structural conversion of the source value `v` (of type `s`)
+`ImgOnto env K s t v old w` says that `w` is what assigning the structural conversion of the source value `v` (of type `s`)
 ONTO a target location of type `t` that held `old` before gives (locations erased):
 
   * basic payloads are copied; a non-nil pointer / slice / map source gives a NEW pointer / slice / map holding the
@@ -16,7 +16,14 @@ ONTO a target location of type `t` that held `old` before gives (locations erase
     The modes are the configuration of the struct conversion (`modesOf` reads them off a plan); for nested structs the
     relation only says that SOME configuration was applied;
   * where the conversion of a part is delegated to another generated method, the part is REPLACED by its conversion
-    (the image onto a fresh zero-valued location), whatever it held before.
+    (the image onto a fresh zero-valued location), whatever it held before;
+  * C11, `default FUNC`: where the other method (signature `s → t`, `K s t _`) has a default constructor, it starts from
+    FUNC's result `c` (`IsCtorOf`) instead of the zero value: with plain `default` (`K s t false`) the part is the image
+    ONTO `c` ("a nil source pointer returns FUNC's result unchanged, ignored fields keep FUNC's values"); with
+    `default:update` (`K s t true`) a nil source pointer gives `c` and a non-nil source "is applied on top of FUNC's result
+    instead of replacing it" (same pointer, the pointee is the image of the source onto FUNC's object).
+`K s t upd` says which method signatures have a default constructor (`CtorSig p` for a program); for a program without
+constructors it is empty and the last clause never applies.
 -/
 import Gv.Model.Eval
 import Gv.Spec.Structural
@@ -43,80 +50,99 @@ def modesOf (plans : FieldPlans) : List FMode := plans.toList.map modeOf
 /-- "the source field value is the zero value" (what the emitted `if source.F != zero` tests) -/
 def IsZeroValue (v : Val) : Prop := isZeroVal v = true
 
+/-- `c` is (erased) what the default constructor of a method with target type `t` makes the method start from: the
+constructor's value (`ctorVal`: numeric fields 7, strings "ctor"), behind a (fresh) pointer when `t` is a pointer type -/
+def IsCtorOf (env : TEnv) (t : Ty) (c : Val) : Prop :=
+  ((∀ e, under env t ≠ .ptr e) ∧ c = erase (ctorVal env 64 t)) ∨
+  (∃ te, under env t = .ptr te ∧ c = .ptr .none (erase (ctorVal env 64 te)))
+
 /-- the fields a struct-typed location held before (an unknown previous value has none) -/
 def oldFields : Val → List (S × Val)
   | .struct fs => fs
   | _ => []
 
 mutual
-  inductive ImgOnto (env : TEnv) : Ty → Ty → Val → Val → Val → Prop
-    | basic {s t k r old} : under env s = .basic k → under env t = .basic k → ImgOnto env s t (.basic r) old (.basic r)
+  inductive ImgOnto (env : TEnv) (K : Ty → Ty → Bool → Prop) : Ty → Ty → Val → Val → Val → Prop
+    | basic {s t k r old} : under env s = .basic k → under env t = .basic k → ImgOnto env K s t (.basic r) old (.basic r)
     /-- nil pointer source: the target is left as it was -/
-    | ptrNil {s t se te old} : under env s = .ptr se → under env t = .ptr te → ImgOnto env s t .nil old old
+    | ptrNil {s t se te old} : under env s = .ptr se → under env t = .ptr te → ImgOnto env K s t .nil old old
     | ptrPtr {s t se te l x y z old} : under env s = .ptr se → under env t = .ptr te → IsZeroOf env te z →
-        ImgOnto env se te x z y → ImgOnto env s t (.ptr l x) old (.ptr .none y)
+        ImgOnto env K se te x z y → ImgOnto env K s t (.ptr l x) old (.ptr .none y)
     | toPtr {s t te v w z old} : (∀ e, under env s ≠ .ptr e) → under env t = .ptr te → IsZeroOf env te z →
-        ImgOnto env s te v z w → ImgOnto env s t v old (.ptr .none w)
+        ImgOnto env K s te v z w → ImgOnto env K s t v old (.ptr .none w)
     /-- `*T → U`: a nil pointer leaves the target as it was … -/
-    | srcNil {s t se old} : under env s = .ptr se → (∀ e, under env t ≠ .ptr e) → ImgOnto env s t .nil old old
+    | srcNil {s t se old} : under env s = .ptr se → (∀ e, under env t ≠ .ptr e) → ImgOnto env K s t .nil old old
     /-- … and a non-nil one assigns the conversion of the pointee -/
     | srcPtr {s t se l x y z old} : under env s = .ptr se → (∀ e, under env t ≠ .ptr e) → IsZeroOf env t z →
-        ImgOnto env se t x z y → ImgOnto env s t (.ptr l x) old y
-    | sliceNil {s t se te old} : under env s = .slice se → under env t = .slice te → ImgOnto env s t .nil old old
-    | slice {s t se te l vs ws old} : under env s = .slice se → under env t = .slice te → ImgListOnto env se te vs ws →
-        ImgOnto env s t (.slice l vs) old (.slice .none ws)
-    | array {s t n se te vs ws old} : under env s = .array n se → under env t = .slice te → ImgListOnto env se te vs ws →
-        ImgOnto env s t (.arr vs) old (.slice .none ws)
-    | mapNil {s t sk sv tk tv old} : under env s = .map sk sv → under env t = .map tk tv → ImgOnto env s t .nil old old
+        ImgOnto env K se t x z y → ImgOnto env K s t (.ptr l x) old y
+    | sliceNil {s t se te old} : under env s = .slice se → under env t = .slice te → ImgOnto env K s t .nil old old
+    | slice {s t se te l vs ws old} : under env s = .slice se → under env t = .slice te → ImgListOnto env K se te vs ws →
+        ImgOnto env K s t (.slice l vs) old (.slice .none ws)
+    | array {s t n se te vs ws old} : under env s = .array n se → under env t = .slice te → ImgListOnto env K se te vs ws →
+        ImgOnto env K s t (.arr vs) old (.slice .none ws)
+    | mapNil {s t sk sv tk tv old} : under env s = .map sk sv → under env t = .map tk tv → ImgOnto env K s t .nil old old
     | map {s t sk sv tk tv l kvs ws old} : under env s = .map sk sv → under env t = .map tk tv →
-        ImgEntriesOnto env sk sv tk tv kvs ws → ImgOnto env s t (.map l kvs) old (.map .none ws)
+        ImgEntriesOnto env K sk sv tk tv kvs ws → ImgOnto env K s t (.map l kvs) old (.map .none ws)
     /-- a conversion that is delegated to another generated method is built in that method's own fresh (zero-valued)
     result variable, and the location is overwritten with the result: "replaced by its conversion" -/
-    | replaced {s t v w z old} : IsZeroOf env t z → ImgOnto env s t v z w → ImgOnto env s t v old w
+    | replaced {s t v w z old} : IsZeroOf env t z → ImgOnto env K s t v z w → ImgOnto env K s t v old w
+    /-- `default FUNC` (plain) on the method the conversion is delegated to: it starts from FUNC's result `c` -/
+    | ctorStart {s t v w c old} : K s t false → IsCtorOf env t c → ImgOnto env K s t v c w → ImgOnto env K s t v old w
+    /-- `default FUNC` with default:update, nil source pointer: FUNC's result -/
+    | ctorUpdNil {s t se c old} : K s t true → IsCtorOf env t c → under env s = .ptr se → ImgOnto env K s t .nil old c
+    /-- … `*S → *T`, non-nil: FUNC's pointer, its pointee updated from the source's pointee -/
+    | ctorUpdPtrPtr {s t se te l x o y old} : K s t true → IsCtorOf env t (.ptr .none o) → under env s = .ptr se →
+        under env t = .ptr te → ImgOnto env K se te x o y → ImgOnto env K s t (.ptr l x) old (.ptr .none y)
+    /-- … `*S → T`, non-nil: FUNC's value updated from the source's pointee -/
+    | ctorUpdSrcPtr {s t se l x c y old} : K s t true → IsCtorOf env t c → under env s = .ptr se →
+        (∀ e, under env t ≠ .ptr e) → ImgOnto env K se t x c y → ImgOnto env K s t (.ptr l x) old y
+    /-- … `S → *T`: FUNC's pointer, its pointee updated from the source -/
+    | ctorUpdTgtPtr {s t te v o y old} : K s t true → IsCtorOf env t (.ptr .none o) → (∀ e, under env s ≠ .ptr e) →
+        under env t = .ptr te → ImgOnto env K s te v o y → ImgOnto env K s t v old (.ptr .none y)
     /-- struct → struct: field-wise over the target fields, under some configuration `modes` -/
     | struct {s t sfs tfs fs ws modes old} : under env s = .struct sfs → under env t = .struct tfs →
-        ImgFieldsOnto env modes sfs.toList fs tfs.toList (oldFields old) ws → ImgOnto env s t (.struct fs) old (.struct ws)
+        ImgFieldsOnto env K modes sfs.toList fs tfs.toList (oldFields old) ws → ImgOnto env K s t (.struct fs) old (.struct ws)
   /-- element-wise, in order, same length; every element is converted onto a fresh (zero-valued) slot -/
-  inductive ImgListOnto (env : TEnv) : Ty → Ty → List Val → List Val → Prop
-    | nil {se te} : ImgListOnto env se te [] []
-    | cons {se te v w z vs ws} : IsZeroOf env te z → ImgOnto env se te v z w → ImgListOnto env se te vs ws →
-        ImgListOnto env se te (v :: vs) (w :: ws)
+  inductive ImgListOnto (env : TEnv) (K : Ty → Ty → Bool → Prop) : Ty → Ty → List Val → List Val → Prop
+    | nil {se te} : ImgListOnto env K se te [] []
+    | cons {se te v w z vs ws} : IsZeroOf env te z → ImgOnto env K se te v z w → ImgListOnto env K se te vs ws →
+        ImgListOnto env K se te (v :: vs) (w :: ws)
   /-- entry-wise: same number of entries -/
-  inductive ImgEntriesOnto (env : TEnv) : Ty → Ty → Ty → Ty → List (Val × Val) → List (Val × Val) → Prop
-    | nil {sk sv tk tv} : ImgEntriesOnto env sk sv tk tv [] []
-    | cons {sk sv tk tv k v k' v' zk zv r r'} : IsZeroOf env tk zk → ImgOnto env sk tk k zk k' →
-        IsZeroOf env tv zv → ImgOnto env sv tv v zv v' → ImgEntriesOnto env sk sv tk tv r r' →
-        ImgEntriesOnto env sk sv tk tv ((k, v) :: r) ((k', v') :: r')
-  /-- `ImgFieldsOnto env modes sfs fs tfs ofs ws`: for every target field of `tfs` (with its mode), the field of the result
+  inductive ImgEntriesOnto (env : TEnv) (K : Ty → Ty → Bool → Prop) : Ty → Ty → Ty → Ty → List (Val × Val) → List (Val × Val) → Prop
+    | nil {sk sv tk tv} : ImgEntriesOnto env K sk sv tk tv [] []
+    | cons {sk sv tk tv k v k' v' zk zv r r'} : IsZeroOf env tk zk → ImgOnto env K sk tk k zk k' →
+        IsZeroOf env tv zv → ImgOnto env K sv tv v zv v' → ImgEntriesOnto env K sk sv tk tv r r' →
+        ImgEntriesOnto env K sk sv tk tv ((k, v) :: r) ((k', v') :: r')
+  /-- `ImgFieldsOnto env K modes sfs fs tfs ofs ws`: for every target field of `tfs` (with its mode), the field of the result
   `ws` is what the mode prescribes, given the source fields `fs` (of types `sfs`) and the previous target fields `ofs` -/
-  inductive ImgFieldsOnto (env : TEnv) : List FMode → List (FieldInfo × Ty) → List (S × Val) → List (FieldInfo × Ty) →
+  inductive ImgFieldsOnto (env : TEnv) (K : Ty → Ty → Bool → Prop) : List FMode → List (FieldInfo × Ty) → List (S × Val) → List (FieldInfo × Ty) →
       List (S × Val) → List (S × Val) → Prop
-    | nil {sfs fs ofs ws} : ImgFieldsOnto env [] sfs fs [] ofs ws
+    | nil {sfs fs ofs ws} : ImgFieldsOnto env K [] sfs fs [] ofs ws
     /-- not assigned: the field holds what it held before -/
     | keep {ms sfs fs tf tty tfs ofs ws} : ws.lookup tf.name = ofs.lookup tf.name →
-        ImgFieldsOnto env ms sfs fs tfs ofs ws → ImgFieldsOnto env (.keep :: ms) sfs fs ((tf, tty) :: tfs) ofs ws
+        ImgFieldsOnto env K ms sfs fs tfs ofs ws → ImgFieldsOnto env K (.keep :: ms) sfs fs ((tf, tty) :: tfs) ofs ws
     /-- assigned: the conversion of the same-named source field (onto the field's previous value) -/
     | assign {ms sfs fs tf tty tfs ofs ws sf sty x y} :
         sfs.find? (fun (p : FieldInfo × Ty) => p.1.name == tf.name) = some (sf, sty) →
         fs.lookup tf.name = some x → ws.lookup tf.name = some y →
-        ImgOnto env sty tty x ((ofs.lookup tf.name).getD .nil) y →
-        ImgFieldsOnto env ms sfs fs tfs ofs ws → ImgFieldsOnto env (.assign :: ms) sfs fs ((tf, tty) :: tfs) ofs ws
+        ImgOnto env K sty tty x ((ofs.lookup tf.name).getD .nil) y →
+        ImgFieldsOnto env K ms sfs fs tfs ofs ws → ImgFieldsOnto env K (.assign :: ms) sfs fs ((tf, tty) :: tfs) ofs ws
     /-- zero-value guard, zero source field: the target field is unchanged -/
     | zeroKept {ms sfs fs tf tty tfs ofs ws sf sty x} :
         sfs.find? (fun (p : FieldInfo × Ty) => p.1.name == tf.name) = some (sf, sty) →
         fs.lookup tf.name = some x → IsZeroValue x → ws.lookup tf.name = ofs.lookup tf.name →
-        ImgFieldsOnto env ms sfs fs tfs ofs ws → ImgFieldsOnto env (.assignNonZero :: ms) sfs fs ((tf, tty) :: tfs) ofs ws
+        ImgFieldsOnto env K ms sfs fs tfs ofs ws → ImgFieldsOnto env K (.assignNonZero :: ms) sfs fs ((tf, tty) :: tfs) ofs ws
     /-- zero-value guard, non-zero source field: assigned -/
     | nonZero {ms sfs fs tf tty tfs ofs ws sf sty x y} :
         sfs.find? (fun (p : FieldInfo × Ty) => p.1.name == tf.name) = some (sf, sty) →
         fs.lookup tf.name = some x → ¬ IsZeroValue x → ws.lookup tf.name = some y →
-        ImgOnto env sty tty x ((ofs.lookup tf.name).getD .nil) y →
-        ImgFieldsOnto env ms sfs fs tfs ofs ws → ImgFieldsOnto env (.assignNonZero :: ms) sfs fs ((tf, tty) :: tfs) ofs ws
+        ImgOnto env K sty tty x ((ofs.lookup tf.name).getD .nil) y →
+        ImgFieldsOnto env K ms sfs fs tfs ofs ws → ImgFieldsOnto env K (.assignNonZero :: ms) sfs fs ((tf, tty) :: tfs) ofs ws
 end
 
 /-- what the relation says at a basic target type: the payload of the source (whatever the location held before) -/
-theorem ImgOnto.basic_inv_aux {env : TEnv} : ∀ {s t : Ty} {v old w : Val},
-    ImgOnto env s t v old w → ∀ (r : S) (k : Kind), v = .basic r → under env t = .basic k → w = .basic r
+theorem ImgOnto.basic_inv_aux {env : TEnv} {K : Ty → Ty → Bool → Prop} : ∀ {s t : Ty} {v old w : Val},
+    ImgOnto env K s t v old w → ∀ (r : S) (k : Kind), v = .basic r → under env t = .basic k → w = .basic r
   | _, _, _, _, _, .basic _ _, _, _, hv, _ => by cases hv; rfl
   | _, _, _, _, _, .ptrNil _ _, _, _, hv, _ => by cases hv
   | _, _, _, _, _, .ptrPtr _ _ _ _, _, _, hv, _ => by cases hv
@@ -129,27 +155,32 @@ theorem ImgOnto.basic_inv_aux {env : TEnv} : ∀ {s t : Ty} {v old w : Val},
   | _, _, _, _, _, .mapNil _ _, _, _, hv, _ => by cases hv
   | _, _, _, _, _, .map _ _ _, _, _, hv, _ => by cases hv
   | _, _, _, _, _, .replaced _ h, r, k, hv, ht => ImgOnto.basic_inv_aux h r k hv ht
+  | _, _, _, _, _, .ctorStart _ _ h, r, k, hv, ht => ImgOnto.basic_inv_aux h r k hv ht
+  | _, _, _, _, _, .ctorUpdNil _ _ _, _, _, hv, _ => by cases hv
+  | _, _, _, _, _, .ctorUpdPtrPtr _ _ _ _ _, _, _, hv, _ => by cases hv
+  | _, _, _, _, _, .ctorUpdSrcPtr _ _ _ _ _, _, _, hv, _ => by cases hv
+  | _, _, _, _, _, .ctorUpdTgtPtr _ _ _ h2 _, _, _, _, ht => by rw [ht] at h2; cases h2
   | _, _, _, _, _, .struct _ _ _, _, _, hv, _ => by cases hv
 
 /-- what `ImgFieldsOnto` says about ONE target field `tf : tty` treated with `mode` -/
-def FieldSpec (env : TEnv) (mode : FMode) (sfs : List (FieldInfo × Ty)) (fs : List (S × Val)) (tf : FieldInfo) (tty : Ty)
+def FieldSpec (env : TEnv) (K : Ty → Ty → Bool → Prop) (mode : FMode) (sfs : List (FieldInfo × Ty)) (fs : List (S × Val)) (tf : FieldInfo) (tty : Ty)
     (ofs ws : List (S × Val)) : Prop :=
   match mode with
   | .keep => ws.lookup tf.name = ofs.lookup tf.name
   | .assign =>
     ∃ sf sty x y, sfs.find? (fun (p : FieldInfo × Ty) => p.1.name == tf.name) = some (sf, sty) ∧
       fs.lookup tf.name = some x ∧ ws.lookup tf.name = some y ∧
-      ImgOnto env sty tty x ((ofs.lookup tf.name).getD .nil) y
+      ImgOnto env K sty tty x ((ofs.lookup tf.name).getD .nil) y
   | .assignNonZero =>
     ∃ sf sty x, sfs.find? (fun (p : FieldInfo × Ty) => p.1.name == tf.name) = some (sf, sty) ∧
       fs.lookup tf.name = some x ∧
       ((IsZeroValue x ∧ ws.lookup tf.name = ofs.lookup tf.name) ∨
-       (¬ IsZeroValue x ∧ ∃ y, ws.lookup tf.name = some y ∧ ImgOnto env sty tty x ((ofs.lookup tf.name).getD .nil) y))
+       (¬ IsZeroValue x ∧ ∃ y, ws.lookup tf.name = some y ∧ ImgOnto env K sty tty x ((ofs.lookup tf.name).getD .nil) y))
 
 /-- field by field: the `i`-th target field is treated with the `i`-th mode -/
-theorem ImgFieldsOnto.at {env : TEnv} {modes sfs fs tfs ofs ws} (h : ImgFieldsOnto env modes sfs fs tfs ofs ws) :
+theorem ImgFieldsOnto.at {env : TEnv} {K : Ty → Ty → Bool → Prop} {modes sfs fs tfs ofs ws} (h : ImgFieldsOnto env K modes sfs fs tfs ofs ws) :
     ∀ (i : Nat) (tf : FieldInfo) (tty : Ty), tfs[i]? = some (tf, tty) →
-      ∃ mode, modes[i]? = some mode ∧ FieldSpec env mode sfs fs tf tty ofs ws := by
+      ∃ mode, modes[i]? = some mode ∧ FieldSpec env K mode sfs fs tf tty ofs ws := by
   induction tfs generalizing modes with
   | nil => intro i tf tty hi; simp at hi
   | cons a tfs ih =>
@@ -178,17 +209,17 @@ theorem ImgFieldsOnto.at {env : TEnv} {modes sfs fs tfs ofs ws} (h : ImgFieldsOn
  (ii)  a mapped field has a same-named source field `x`, and — unless a zero-value guard applies and `x` is zero — holds the
        conversion of `x` (assigned onto the field's previous value);
  (iii) under a zero-value guard (update:ignoreZeroValueField) a zero `x` leaves the field unchanged. -/
-def FieldOutcome (env : TEnv) (sfs : List (FieldInfo × Ty)) (fs : List (S × Val)) (tf : FieldInfo) (tty : Ty)
+def FieldOutcome (env : TEnv) (K : Ty → Ty → Bool → Prop) (sfs : List (FieldInfo × Ty)) (fs : List (S × Val)) (tf : FieldInfo) (tty : Ty)
     (ofs ws : List (S × Val)) (f : FieldPlan) : Prop :=
   (∀ nm, f = .skip nm → ws.lookup tf.name = ofs.lookup tf.name) ∧
   (∀ tg path derefs guarded leafIsPtr cv zero, f = .mapped tg path derefs guarded leafIsPtr cv zero →
     ∃ sf sty x, sfs.find? (fun (p : FieldInfo × Ty) => p.1.name == tf.name) = some (sf, sty) ∧ fs.lookup tf.name = some x ∧
       ((zero = .none ∨ ¬ IsZeroValue x) →
-        ∃ y, ws.lookup tf.name = some y ∧ ImgOnto env sty tty x ((ofs.lookup tf.name).getD .nil) y) ∧
+        ∃ y, ws.lookup tf.name = some y ∧ ImgOnto env K sty tty x ((ofs.lookup tf.name).getD .nil) y) ∧
       ((zero = .check ∧ IsZeroValue x) → ws.lookup tf.name = ofs.lookup tf.name))
 
-theorem FieldSpec.outcome {env : TEnv} {sfs fs tf tty ofs ws} {f : FieldPlan}
-    (h : FieldSpec env (modeOf f) sfs fs tf tty ofs ws) : FieldOutcome env sfs fs tf tty ofs ws f := by
+theorem FieldSpec.outcome {env : TEnv} {K : Ty → Ty → Bool → Prop} {sfs fs tf tty ofs ws} {f : FieldPlan}
+    (h : FieldSpec env K (modeOf f) sfs fs tf tty ofs ws) : FieldOutcome env K sfs fs tf tty ofs ws f := by
   refine ⟨?_, ?_⟩
   · intro nm hf
     subst hf
@@ -214,10 +245,10 @@ theorem FieldSpec.outcome {env : TEnv} {sfs fs tf tty ofs ws} {f : FieldPlan}
         · exact absurd hh.2 hnz
 
 /-- every target field, by position, with the plan of that position -/
-theorem ImgFieldsOnto.outcome {env : TEnv} {plans : FieldPlans} {sfs fs tfs ofs ws}
-    (h : ImgFieldsOnto env (modesOf plans) sfs fs tfs ofs ws) (i : Nat) (tf : FieldInfo) (tty : Ty)
+theorem ImgFieldsOnto.outcome {env : TEnv} {K : Ty → Ty → Bool → Prop} {plans : FieldPlans} {sfs fs tfs ofs ws}
+    (h : ImgFieldsOnto env K (modesOf plans) sfs fs tfs ofs ws) (i : Nat) (tf : FieldInfo) (tty : Ty)
     (hi : tfs[i]? = some (tf, tty)) :
-    ∃ f, plans.toList[i]? = some f ∧ FieldOutcome env sfs fs tf tty ofs ws f := by
+    ∃ f, plans.toList[i]? = some f ∧ FieldOutcome env K sfs fs tf tty ofs ws f := by
   obtain ⟨mode, hmode, hspec⟩ := h.at i tf tty hi
   unfold modesOf at hmode
   rw [List.getElem?_map] at hmode
@@ -228,5 +259,58 @@ theorem ImgFieldsOnto.outcome {env : TEnv} {plans : FieldPlans} {sfs fs tfs ofs 
     simp only [Option.map_some, Option.some.injEq] at hmode
     subst hmode
     exact ⟨f, rfl, hspec.outcome⟩
+
+/-! ### default constructors (C11) -/
+
+/-- the method signatures of a program that have a default constructor (`upd`: with default:update) -/
+def CtorSig (p : Program) (s t : Ty) (upd : Bool) : Prop :=
+  ∃ (m : Nat) (gm : GenMethod), p.methods[m]? = some gm ∧ gm.source = s ∧ gm.target = t ∧
+    ((upd = false ∧ ∃ ctor tp rest, gm.body = some (.convert (.withCtor ctor tp rest))) ∨
+     (upd = true ∧ ∃ ctor tp a b inner, gm.body = some (.convert (.ctorUpdate ctor tp a b inner))))
+
+/-- no method of the program starts from a default constructor -/
+def noCtorBodies (p : Program) : Bool :=
+  p.methods.all (fun gm => match gm.body with
+    | some (.convert (.withCtor _ _ _)) => false
+    | some (.convert (.ctorUpdate _ _ _ _ _)) => false
+    | _ => true)
+
+/-- for such a program `CtorSig` is empty: the default-constructor clauses of `ImgOnto` never apply, and the relation is the
+one of C05 / C10 alone -/
+theorem CtorSig.empty {p : Program} (h : noCtorBodies p = true) (s t : Ty) (upd : Bool) : ¬ CtorSig p s t upd := by
+  rintro ⟨m, gm, hm, _, _, hb⟩
+  unfold noCtorBodies at h
+  rw [List.all_eq_true] at h
+  have hmem : gm ∈ p.methods := by
+    obtain ⟨hlt, he⟩ := List.getElem?_eq_some_iff.1 hm
+    exact he ▸ List.getElem_mem hlt
+  have := h gm hmem
+  rcases hb with ⟨_, ctor, tp, rest, hb⟩ | ⟨_, ctor, tp, a, b, inner, hb⟩
+  · simp [hb] at this
+  · simp [hb] at this
+
+/-- what a method `s → t` with `default FUNC` returns for the source `v`, `c` being FUNC's result (all erased):
+plain `default` — the conversion of `v` ONTO `c` (so a nil source pointer gives `c`, ignored fields keep `c`'s values);
+`default:update` — `c` for a nil source pointer, otherwise `c` (the same pointer, for a pointer target) with the source
+(the pointee of a pointer source) applied on top -/
+inductive CtorImg (env : TEnv) (K : Ty → Ty → Bool → Prop) : Bool → Ty → Ty → Val → Val → Val → Prop
+  | plain {s t v c w} : ImgOnto env K s t v c w → CtorImg env K false s t v c w
+  | updNil {s t se c} : under env s = .ptr se → CtorImg env K true s t .nil c c
+  | updPtrPtr {s t se te l x o y} : under env s = .ptr se → under env t = .ptr te → ImgOnto env K se te x o y →
+      CtorImg env K true s t (.ptr l x) (.ptr .none o) (.ptr .none y)
+  | updSrcPtr {s t se l x c y} : under env s = .ptr se → (∀ e, under env t ≠ .ptr e) → ImgOnto env K se t x c y →
+      CtorImg env K true s t (.ptr l x) c y
+  | updTgtPtr {s t te v o y} : (∀ e, under env s ≠ .ptr e) → under env t = .ptr te → ImgOnto env K s te v o y →
+      CtorImg env K true s t v (.ptr .none o) (.ptr .none y)
+
+/-- seen from a caller, the result of such a method overwrites whatever the caller's location held -/
+theorem CtorImg.onto {env : TEnv} {K : Ty → Ty → Bool → Prop} {upd : Bool} {s t : Ty} {v c w : Val}
+    (h : CtorImg env K upd s t v c w) (hk : K s t upd) (hc : IsCtorOf env t c) (old : Val) : ImgOnto env K s t v old w := by
+  cases h with
+  | plain h => exact .ctorStart hk hc h
+  | updNil hs => exact .ctorUpdNil hk hc hs
+  | updPtrPtr hs ht h => exact .ctorUpdPtrPtr hk hc hs ht h
+  | updSrcPtr hs ht h => exact .ctorUpdSrcPtr hk hc hs ht h
+  | updTgtPtr hs ht h => exact .ctorUpdTgtPtr hk hc hs ht h
 
 end Gv.Spec
